@@ -81,6 +81,21 @@ func init() {
 		},
 		"unicode.ToLower": func(fr *frame, args []value) value { return fr.i.runeCase(args[0], false) },
 		"unicode.ToUpper": func(fr *frame, args []value) value { return fr.i.runeCase(args[0], true) },
+		"unicode.IsSpace": func(fr *frame, args []value) value {
+			if c, ok := args[0].(int32); ok {
+				return unicode.IsSpace(c)
+			}
+			st := fr.i.eng.st
+			t := args[0].(sym).t
+			if !fr.i.eng.branch(st.Cmp(OpULt, t, st.Const(32, 0x80))) {
+				fr.i.eng.outside("unicode.IsSpace of a symbolic non-ASCII rune")
+			}
+			var alts []*Term
+			for _, c := range []uint64{'\t', '\n', '\v', '\f', '\r', ' '} {
+				alts = append(alts, st.Eq(t, st.Const(32, c)))
+			}
+			return valueOf(st.Or(alts...), types.Bool)
+		},
 		"strings.Clone":   func(fr *frame, args []value) value { return args[0] },
 		"internal/stringslite.Clone": func(fr *frame, args []value) value { return args[0] },
 		"unique.Make": nil,
